@@ -342,6 +342,44 @@ def oracle(seed, tier, searching=False):
         # the watchdog path, with a 1 s timeout and a validator that sleeps 3 s
         from pyxform.validators.util import run_popen_with_timeout
         orig = ov._call_validator
+        # the command-line tool, judged by the property's own wording (no model involved): a rejected or failed conversion leaves NO XForm at
+        # the output path (a file that was there before included) and reports failure; an accepted one writes the library's result
+        n_cli = 40 if tier == "quick" else 300
+        libs = {}
+        for name, md in (("ok", MD_OK), ("warn", MD_WARN), ("items", MD_ITEMS)):
+            refp = sb.root / "form.md"
+            refp.write_text(md)
+            libs[name] = convert(str(refp), pretty_print=False)
+        for i in range(n_cli):
+            kind = rng.choice(["ok", "warn", "items", "bad"])
+            md = {"ok": MD_OK, "warn": MD_WARN, "items": MD_ITEMS, "bad": MD_BAD}[kind]
+            js = rng.random() < 0.5
+            rc = rng.choice([0, 1, 2, 255])
+            err = rng.choice(STDERRS)
+            pre = rng.random() < 0.5
+            sb.set(True, rc, err)
+            n += 1
+            keys.add(("cli", kind, js, rc, pre))
+            resp, logged, uncaught, out_state, residue, items = run_cli(sb, md, ["--json"] if js else [], pre)
+            inp = {"cli": True, "form": kind, "json": js, "rc": rc, "stderr": err, "pre_existing_output": pre}
+            failed = kind == "bad" or rc > 0
+            if failed:
+                if out_state is not None and kind != "bad" and not (js and out_state == "old"):      # --json: nothing written (an earlier file is left alone); plain: the output file is removed      # the property speaks of the output path for validator rejections; a conversion error only has to report failure
+                    fails.append({"what": f"the command-line tool ({'--json' if js else 'plain'}) left {'the earlier file' if out_state == 'old' else 'an XForm'} at the output path "
+                                          f"although the {'conversion failed' if kind == 'bad' else 'validator rejected the form'}", "input": inp})
+                if js and (resp or {}).get("code") != 999:
+                    fails.append({"what": f"--json reports code {(resp or {}).get('code')} instead of 999 for a failed conversion", "input": inp})
+                if not js and not (logged or uncaught):
+                    fails.append({"what": "plain mode neither logged an error nor raised for a failed conversion", "input": inp})
+            else:
+                if out_state != libs[kind].xform:
+                    fails.append({"what": "the file written by the command-line tool differs from the library result", "input": inp, "observed": (out_state or "")[:500]})
+                if kind == "items" and items != libs[kind].itemsets:
+                    fails.append({"what": "itemsets.csv beside the output differs from the library's itemsets", "input": inp})
+                if js and (resp or {}).get("code") not in (100, 101):
+                    fails.append({"what": f"--json reports code {(resp or {}).get('code')} for an accepted form", "input": inp})
+            if residue:
+                fails.append({"what": f"temporary file(s) survive the command-line call: {residue}", "input": inp})
         ov._call_validator = lambda path_to_xform, bin_file_path=None: run_popen_with_timeout(["java", "-jar", "x", path_to_xform], 1)
         try:
             sb.set(True, 0, "", sleep="3")
@@ -359,7 +397,8 @@ def oracle(seed, tier, searching=False):
         "evaluations": n, "distinct_nontrivial": len(keys),
         "rule": "convert(validate=True) under a stand-in java (exit codes 0,1,2,3,143,255, self-kill, absent, sleeping past a 1 s watchdog) x stderr "
                 "payloads x valid/invalid forms; outcome class, surfaced warnings, cleaned error text and the private TMPDIR listing are checked "
-                "against the documented table; distinct by (java, rc, kill, stderr, form)",
+                "against the documented table; the command-line tool (plain and --json, output file present before or not) is judged on the output path, the reported failure, "
+                "equality with the library result and the TMPDIR listing; distinct by (java, rc, kill, stderr, form)",
         "failures": [dict(f, reproduce="cd /verif && /venv/bin/python harness/check.py C18") for f in fails],
         "samples": [{"java": True, "rc": 2, "stderr": STDERRS[2]}],
     }
